@@ -7,6 +7,7 @@ RoOV == {<<"O1", 50000000, 0, 50000000, 0>>,                     \* $0.5: unheal
          <<"O1", 60000000, 1000000, 58000000, 400000>>,          \* $0.6 / 0.58, different confidences: unhealthy
          <<"O1", 90000000, 0, 90000000, 0>>,                     \* $0.9: still healthy
          <<"O1", 50000000, 2250000, 50000000, 2250000>>,         \* 4.5 % x 2.12: capped at 5 %
+         <<"O1", 50000000, 2250000, 62000000, 300000>>,          \* spot confidence capped at 5 % of the spot price, time-weighted price well above
          <<"O1", 50000000, 3000000, 50000000, 100000>>,          \* spot confidence beyond the maximum
          <<"O3", 104000000, 0, 100000000, 0>>}
 RoSV == {<<"O2", "20000000000000000001", "0">>}
